@@ -145,11 +145,11 @@ def _worker_init(engine_name, tree, scratch):
 
 
 def _work(job):
-    tier, seed, start, stop, watchdog = job
+    tier, seed, start, stop, watchdog, sample_idx = job
     eng = _W["eng"]
     res = {"n": 0, "stats": collections.Counter(), "cases": array.array("Q"), "scheds": array.array("Q"),
            "states": array.array("Q"), "violations": [], "samples": [], "sim_time": 0.0, "steps": 0,
-           "inconclusive": 0, "trivial": 0}
+           "inconclusive": 0, "trivial": 0, "digests": {}}
     for idx in range(start, stop):
         faulthandler.dump_traceback_later(watchdog, exit=True)
         sc = eng.scenario(tier, idx)
@@ -161,6 +161,8 @@ def _work(job):
             return {"harness_error": "run %d of %s: %s" % (idx, eng.prop, traceback.format_exc()), "draws": ch.values(), "scenario": sc}
         faulthandler.cancel_dump_traceback_later()
         res["n"] += 1
+        if idx in sample_idx:
+            res["digests"][idx] = out.event_digest() + ":" + hashlib.sha256(repr(ch.values()).encode()).hexdigest()[:8]
         res["stats"].update(out.stats)
         res["sim_time"] += out.sim_time
         res["steps"] += out.steps
@@ -221,6 +223,16 @@ def run_check(eng, tier, jobs=None, runs=None, quiet=False):
            "states": array.array("Q"), "violations": [], "samples": [], "sim_time": 0.0, "steps": 0, "inconclusive": 0,
            "trivial": 0}
     harness_error = None
+    # determinism prefix: a sample of the runs is recomputed in a fresh interpreter under another
+    # PYTHONHASHSEED while the pool works; the event-log digests must agree
+    nsample = 0 if os.environ.get("BSIM_NO_DETERMINISM_PREFIX") else min(total, 10 if tier == "quick" else 40)
+    sample_idx = frozenset((i * total) // nsample for i in range(nsample)) if nsample else frozenset()
+    fresh = None
+    if sample_idx:
+        fresh = subprocess.Popen([PY, os.path.join(VERIF, "check"), "digest", eng.prop, "--tier", tier, "--seed", str(seed),
+                                  "--indices", ",".join(str(i) for i in sorted(sample_idx))], stdout=subprocess.PIPE, stderr=subprocess.PIPE,
+                                 text=True, env=dict(os.environ, PYTHONHASHSEED="1", BSIM_KEEP_HASHSEED="1", BSIM_REPO=REPO))
+    pool_digests = {}
     chunk = eng.chunk(tier)
     wave = chunk * jobs * 4
     watchdog = eng.watchdog_s
@@ -232,12 +244,13 @@ def run_check(eng, tier, jobs=None, runs=None, quiet=False):
             pos = 0
             while pos < total and not agg["violations"] and harness_error is None:
                 end = min(total, pos + wave)
-                jobs_list = [(tier, seed, s, min(end, s + chunk), watchdog) for s in range(pos, end, chunk)]
+                jobs_list = [(tier, seed, s, min(end, s + chunk), watchdog, sample_idx) for s in range(pos, end, chunk)]
                 for r in pool.map(_work, jobs_list):
                     if "harness_error" in r:
                         harness_error = r
                         break
                     agg["n"] += r["n"]
+                    pool_digests.update(r["digests"])
                     agg["stats"].update(r["stats"])
                     agg["cases"].extend(r["cases"])
                     agg["scheds"].extend(r["scheds"])
@@ -256,6 +269,23 @@ def run_check(eng, tier, jobs=None, runs=None, quiet=False):
     except concurrent.futures.process.BrokenProcessPool as e:
         harness_error = {"harness_error": "worker died (watchdog or crash): %r" % (e,)}
 
+    determinism = None
+    if fresh is not None:
+        try:
+            so, se = fresh.communicate(timeout=600)
+            other = {int(k): v for k, v in json.loads(so.strip().splitlines()[-1]).items()} if fresh.returncode == 0 else None
+        except Exception as e:
+            fresh.kill()
+            other, se = None, repr(e)
+        if harness_error is None and not agg["violations"]:
+            if other is None:
+                harness_error = {"harness_error": "determinism prefix: the fresh interpreter failed: %s" % (se or "")[-600:]}
+            else:
+                bad = [i for i in sorted(pool_digests) if other.get(i) != pool_digests[i]]
+                determinism = {"runs_recomputed_in_fresh_interpreter": len(pool_digests), "other_PYTHONHASHSEED": 1, "digest_mismatches": len(bad)}
+                if bad:
+                    harness_error = {"harness_error": "determinism prefix: runs %s have different event-log digests in a fresh interpreter "
+                                                      "(PYTHONHASHSEED=1) than in the worker pool: the simulation is not a pure function of the seed" % bad[:10]}
     if harness_error is not None:
         print("HARNESS-ERROR property=%s %s" % (eng.prop, harness_error["harness_error"]), flush=True)
         if "draws" in harness_error:
@@ -310,6 +340,7 @@ def run_check(eng, tier, jobs=None, runs=None, quiet=False):
         "tree_digest": tree_digest,
         "workers": jobs,
         "known_findings_matched": dict(known_hits),
+        "determinism_check": determinism,
     }
     zero = [p for p in eng.expected_probes if agg["stats"].get("probe:" + p, 0) == 0]
     cov["reach_warnings"] = zero
